@@ -264,12 +264,18 @@ static bool step(State &s)
     s.stack.back().ip = saved;
     s.steps--;
     std::vector<std::pair<z3::expr, std::shared_ptr<z3::model>>> feas;
-    for (auto &a : fr.alts) { std::shared_ptr<z3::model> m; if (may_be_true(s, a, &m)) feas.push_back({a, m}); }
+    for (auto &a : fr.alts)
+    {
+      std::shared_ptr<z3::model> m;
+      if (fr.prechecked) { feas.push_back({a, m}); continue; }
+      if (may_be_true(s, a, &m)) feas.push_back({a, m});
+    }
+    if (fr.prechecked) s.model.reset();
     if (feas.empty()) { finish_path(s, "infeasible"); return false; }
     if (OPT.verbose) fprintf(stderr, "symx: forkreq %zu/%zu alts in %s at %s (worklist %zu) alt0=%s\n", feas.size(), fr.alts.size(), cur_fn(s).c_str(), cur_loc(s).c_str(), worklist.size(), feas[0].first.to_string().substr(0, 300).c_str());
     for (size_t i = 1; i < feas.size(); i++)
     {
-      ST.forks++; State s2 = s; add_constraint(s2, feas[i].first); if (feas[i].second) s2.model = feas[i].second; worklist.push_back(std::move(s2));
+      ST.forks++; State s2 = [&] { Timer tm(T_COPY); return State(s); }(); add_constraint(s2, feas[i].first); if (feas[i].second) s2.model = feas[i].second; worklist.push_back(std::move(s2));
     }
     add_constraint(s, feas[0].first); if (feas[0].second && !s.model) s.model = feas[0].second;
     return true;
@@ -747,6 +753,7 @@ int main(int argc, char **argv)
   else if (INCONCLUSIVE || !worklist.empty() || ST.abandoned) status = 2;
   if (!worklist.empty() && INCONCLUSIVE_WHY.empty()) INCONCLUSIVE_WHY = timed_out ? "time budget exhausted with paths pending" : "path budget exhausted with paths pending";
   for (auto &v : VIOLS) printf("SYMX-VIOLATION [%s] %s | fn=%s loc=%s count=%lu\n", v.kind.c_str(), v.msg.c_str(), v.fn.c_str(), v.loc.c_str(), v.count);
+  if (OPT.verbose) fprintf(stderr, "symx: time simplify=%.2f model_eval=%.2f enum=%.2f copy=%.2f\n", T_SIMPLIFY, T_MODEL, T_ENUM, T_COPY);
   printf("symx: entry=%s paths=%lu completed=%lu infeasible=%lu forks=%lu steps=%lu queries=%lu (cache %lu, model %lu) solver_s=%.2f wall_s=%.2f violations=%zu pending=%zu status=%d\n",
          entry_name.c_str(), ST.paths, ST.completed, ST.infeasible, ST.forks, ST.steps, ST.queries, ST.cache_hits, ST.model_hits, ST.solver_s, wall, VIOLS.size(), worklist.size(), status);
   if (!OPT.out.empty()) write_json(OPT.out, entry_name, wall, status);
